@@ -33,6 +33,11 @@ def syntactic(n):
     s["nested_if"] = "if to say (true) start\n" * n + "shout(1)\n" + "end\n" * n
     s["nested_loop"] = "make i get 0\n" + "jasi (i small pass 1) start\n" * n + "i get 1\n" + "end\n" * n
     s["nested_def"] = "".join("do f%d() start\n" % i for i in range(n)) + "return 1\n" + "end\n" * n
+    # chains at many nesting levels: level d wraps `[..]` in n - d index steps (no level is deep on its own, the tree is)
+    t = "1"
+    for d in range(min(n, 240), 1, -1):
+        t = "[" + t + "]" + "[0]" * (min(n, 240) - d)
+    s["chain_sum"] = "make a get " + t + "\nshout(1)"
     s["else_chain"] = "if to say (false) start end\n" + "if not so start if to say (false) start end\n" * n + "if not so start shout(1) end\n" + "end\n" * n
     return s
 
